@@ -301,6 +301,12 @@ def datatype_scrutinee_rule(ctx, an, prog, rule, path, enum_path):
             core = peel(e, casts=False)
             # `match d as u16 { 1 => .. }` or `match d { Field::A => .. }`: either way MIR switches on the declared
             # discriminant value of the argument, i.e. on the wire number
+            if core[0] == "binop" and core[1] in ("Le", "Lt", "Ge", "Gt", "Eq", "Ne"):
+                # range / or-patterns (`1..=47 => ..`) compare the same scrutinee against constants
+                sides = [peel(x, casts=False) for x in (core[2], core[3])]
+                nonconst = [x for x in sides if peel(x)[0] != "const"]
+                if len(nonconst) == 1:
+                    core = nonconst[0]
             ok = (core[0] == "cast" and peel(core[2])[0] == "discr" and find(core, lambda n: n == ("arg", 1))) or \
                 (core[0] == "discr" and peel(core[1]) == ("arg", 1))
             why = "scrutinee = %s" % canon(core)[:120]
@@ -522,6 +528,17 @@ def run(ctx, env):
     from . import records as _rec
     fpath = _rec.records_parser_of(lay, V9 + "Data::parse_be")
     fp = prog.body(fpath) if fpath else None
+    for _ in range(2):
+        # a thin private wrapper in front of the records parser (`parse_with_cached(i, &templates, id)` looking the
+        # template up and handing the same input on): follow the one call that receives the input and returns for it
+        if fp is None or any(st["rv"]["adt"].endswith("ops::Range") for (_, _, st) in block_aggs(fp)):
+            break
+        nxt = [prog.body(c.path) for blk, t, c in fp.calls() if c is not None and c.local and t["dest"]["l"] == 0 and not t["dest"].get("p")
+               and t["args"] and peel(an.op(fp, t["args"][0])) == ("arg", 1) and prog.body(c.path) is not None
+               and not prog.body(c.path).j.get("pub") and not prog.body(c.path).derived]
+        if len(nxt) != 1:
+            break
+        fp = nxt[0]
     if ctx.anchor("R4.4", V9 + "Data::parse_be → records parser", fp):
         # the record loop: Range<usize> whose end is record_count (for-loop or iterator-chain form)
         ok = False
@@ -629,6 +646,8 @@ def run(ctx, env):
     ctx.rule("R4.12", "records are all-or-nothing: a decode step whose failure is tolerated (taken as the start of padding) has not appended anything to the reported collection by the time it fails - helpers that fill an out-parameter either have their failure propagated or insert only after their last fallible step")
     from . import consume as _cons
     _cons.partial_output_rule(ctx, prog, an, "R4.12", lambda b: b.path.startswith(("variable_versions::v9::", "variable_versions::data_number::")))
+    ctx.rule("R4.13", "the records a decoder reports are made by that decode alone: every element added to the reported collection derives from the input slice, and the collection itself is created by the call - not the drained / taken content of storage kept in the parser object (a reusable buffer that a failed decode leaves half-filled would surface in a later packet) (shared with C02 R2.10)")
+    _cons.foreign_rule(ctx, prog, an, "R4.13", lambda b: b.path.startswith(("variable_versions::v9::", "variable_versions::data_number::")), floor=1)
     # R4.11
     ctx.rule("R4.11", "a field value is reported as sent: in every arm of FieldValue::from_field_type (private helpers inlined) no arithmetic, clamping or narrowing cast is applied to a value read from the input bytes, and each time kind gets its unit from the Duration constructor of that unit")
     from . import valuepath
